@@ -172,7 +172,7 @@ PROPS = {
         rule="cases: (plus pairs of forced masks whose penalties TIE, found with the recorder) real datamasking::mask on the real blank symbol, exhaustive 40 versions x 8 masks x 2 value fills; all 28 "
              "mask pairs of forced-mask builds of one payload (quick 6 versions, thorough all 40 x 3). distinct = (op, version, masks, level).",
         exhaustive_quick=True, exhaustive_thorough=True,
-        trusted=COMMON_TRUST + ["sweepOk: evaluated by native_decide (Lean compiler trusted for this closed term)"]),
+        trusted=COMMON_TRUST),
     "C10": dict(
         module="FastQr.Props.C10", level="proof", key=key_build,
         rule="cases: (`buildh`: half of the capacity-boundary cases also on a REUSED builder after a first build with one option different) lengths 0..8000 (quick stride 37 + capacity boundaries, thorough every length x 4 contents), arbitrary "
